@@ -45,9 +45,10 @@ def ty(k, id=0):
     return {"k": k, "id": id}
 
 
-def field(rust, t, rename="", default="none", skip=False, multiple=False, flatten=False, with_="none", transform="none"):
+def field(rust, t, rename="", default="none", skip=False, multiple=False, flatten=False, with_="none", transform="none", spelled=()):
+    # spelled: options written out with the value that changes nothing (`skip = false`, `multiple = false`)
     return {"rust": rust, "rename": rename, "default": default, "skip": skip, "multiple": multiple, "flatten": flatten,
-            "with": with_, "transform": transform, "ty": t}
+            "with": with_, "transform": transform, "ty": t, "spelled": list(spelled)}
 
 
 class Corpus:
@@ -337,6 +338,12 @@ def build(seed, tier, focus='all'):
     root([field("name", V, default="trait"), field("rest", ty("recv", flat_inner), flatten=True)], allow_unknown=True)
     root([field("name", V), field("hidden_one", V, skip=True), field("rest", ty("recv", flat_mid), flatten=True)])
     root([field("first_name", O), field("rest", ty("recv", flat_inner), flatten=True)], rename_all="camelCase", cdefault="fn")
+
+    # options spelled out with the value that changes nothing; names that are keywords (`crate = ".."` is an idiom)
+    root([field("max_volume", V, spelled=["skip"]), field("tags", vec(), multiple=True, spelled=["skip"]), field("other", O, spelled=["multiple"])])
+    root([field("max_volume", V, spelled=["skip"]), field("rest", ty("recv", flat_inner), flatten=True)])
+    root([field("max_volume", O, spelled=["skip", "multiple"]), field("other", O)], allow_unknown=True)
+    root([field("krate", V, rename="crate"), field("this", O, rename="self"), field("up", O, rename="super"), field("me", O, rename="Self")], max_items=2)
 
     # --- hostile-input roots (C07): flags, nested receivers / enums / maps fed bodies that are not meta syntax
     root([field("verbose", F), field("strict", F), field("other", O)], max_items=2)
@@ -666,6 +673,7 @@ def darling_opts_field(d, f):
         o.append("skip")
     if f["multiple"]:
         o.append("multiple")
+    o += ["%s = false" % w for w in f.get("spelled", [])]
     if f["flatten"]:
         o.append("flatten")
     wfn = "w_opt" if f["ty"]["k"] == "opt" else "w_val"
